@@ -190,7 +190,7 @@ func checkGraceClosures(c *Ctx, rule string) {
 		return
 	}
 	for _, ret := range returnsOf(w) {
-		for _, lf := range Leaves(ret.Results[0], ret.Block()) {
+		for _, lf := range BoolLeaves(ret.Results[0], ret.Block()) {
 			t := TermOf(lf.V)
 			if t.Op != "const" {
 				c.Ob(rule, "grace.runWithGraceSeconds#return(non-constant)", ret.Pos(), false, "retry result is not a constant", "undecided: "+t.String())
